@@ -860,6 +860,66 @@ func (env *Env) callExpr(n *ast.CallExpr) SV {
 		k := env.argIndex(n.Args[0])
 		t := env.staticDynType(k)
 		return svInt(itoa(int64(x.eng.ioKind(t, fn.Name == "writer_kind"))))
+	case "called_with":
+		// called_with("callee", i, b0, b1): some earlier call to callee on this path had {b0, b1} as its
+		// argument i
+		name, _ := strconv.Unquote(n.Args[0].(*ast.BasicLit).Value)
+		idx, _ := strconv.Atoi(n.Args[1].(*ast.BasicLit).Value)
+		b0, b1 := env.int(n.Args[2]), env.int(n.Args[3])
+		if x.trace == nil {
+			sfail("called_with needs a trace")
+		}
+		var ms []string
+		for _, c := range x.trace.calls {
+			if calleeMatch(name, c.Callee) && idx < len(c.Args) && len(c.Args[idx]) == 2 {
+				ms = append(ms, and(c.Reach, eq(c.Args[idx][0].T, b0), eq(c.Args[idx][1].T, b1)))
+			}
+		}
+		if len(ms) == 0 {
+			return svBool("false")
+		}
+		return svBool(or(ms...))
+	case "callres_arg":
+		// callres_arg("callee", i, b0, b1): the result of the latest earlier call to callee whose
+		// argument i (a two-byte array: a field or transaction ID) equals {b0, b1} -- independent of the
+		// order in which the calls are written
+		name, _ := strconv.Unquote(n.Args[0].(*ast.BasicLit).Value)
+		idx, _ := strconv.Atoi(n.Args[1].(*ast.BasicLit).Value)
+		b0, b1 := env.int(n.Args[2]), env.int(n.Args[3])
+		if x.trace == nil {
+			sfail("callres_arg needs a trace")
+		}
+		var cells Val
+		var ty types.Type
+		for _, c := range x.trace.calls { // oldest first: later matches take precedence
+			if !calleeMatch(name, c.Callee) || c.Res == nil || idx >= len(c.Args) || len(c.Args[idx]) != 2 {
+				continue
+			}
+			rt := c.Instr.Common().Signature().Results()
+			if rt.Len() != 1 {
+				continue
+			}
+			match := and(c.Reach, eq(c.Args[idx][0].T, b0), eq(c.Args[idx][1].T, b1))
+			if cells == nil {
+				ty = rt.At(0).Type()
+				cells = make(Val, len(c.Res))
+				for k := range cells {
+					cells[k] = Cell{T: x.vc.S.freshConst("nocall", c.Res[k].B), B: c.Res[k].B}
+				}
+			}
+			if len(c.Res) != len(cells) {
+				continue
+			}
+			next := make(Val, len(cells))
+			for k := range cells {
+				next[k] = Cell{T: ite(match, c.Res[k].T, cells[k].T), B: cells[k].B}
+			}
+			cells = next
+		}
+		if cells == nil {
+			sfail("callres: no call to %s before this point", name)
+		}
+		return svOfVal(cells, ty)
 	case "callarg":
 		// callarg("callee#k", i): argument i of that call site (receiver first)
 		name, _ := strconv.Unquote(n.Args[0].(*ast.BasicLit).Value)
